@@ -41,7 +41,16 @@ impl ShimEnv {
     pub fn tok_trie(&self) -> (r: &ShimTrie) ensures *r == self.trie { &self.trie }
 }
 /// `len` = number of bytes the parser currently holds (ParserState::bytes); they are a suffix part of llm_bytes
-pub struct ShimParser { pub ghost len: int, pub ghost extra_backtrack: Seq<int> }
+/// `forced` = the bytes the parser has already pushed but no token has claimed yet (Parser::currently_forced_bytes)
+pub struct ShimParser { pub ghost len: int, pub ghost extra_backtrack: Seq<int>, pub ghost forced: Seq<u8> }
+/// length of the "\xFF[id]" spelling of a token id (TokTrie::decode_as_special)
+pub uninterp spec fn special_len(t: u32) -> nat;
+/// the parser matches the token by id against forced "\xFF[id]" bytes (ParserState::apply_token, branch
+/// `bidx == 0 && self.bytes[applied_idx] == SPECIAL_TOKEN_MARKER`): the token is not spelled with the marker itself, the pending
+/// forced bytes are
+pub open spec fn matched_by_id(forced: Seq<u8>, tok_bytes: Seq<u8>) -> bool {
+    forced.len() > 0 && forced[0] == 0xff && !(tok_bytes.len() > 0 && tok_bytes[0] == 0xff)
+}
 impl ShimParser {
     #[verifier::external_body]
     pub fn get_error(&self) -> (r: Option<ParserError>) { unimplemented!() }
@@ -51,7 +60,15 @@ impl ShimParser {
     /// more than it has
     pub fn apply_token(&mut self, tok_bytes: &[u8], tok_id: TokenId) -> (r: Result<usize>)
         ensures final(self).extra_backtrack == old(self).extra_backtrack,
-            r is Ok ==> r->Ok_0 <= old(self).len + tok_bytes@.len() && final(self).len == old(self).len + tok_bytes@.len() - r->Ok_0,
+            !matched_by_id(old(self).forced, tok_bytes@) ==>
+                (r is Ok ==> r->Ok_0 <= old(self).len + tok_bytes@.len() && final(self).len == old(self).len + tok_bytes@.len() - r->Ok_0),
+            // matched by id against the forced "\xFF[id]" bytes: the token then occupies that spelling in the parser; no backtracking
+            matched_by_id(old(self).forced, tok_bytes@) ==>
+                (r is Ok ==> r->Ok_0 == 0 && final(self).len == old(self).len + special_len(tok_id)),
+    { unimplemented!() }
+    #[verifier::external_body]
+    pub fn currently_forced_bytes(&self) -> (r: &[u8])
+        ensures r@ == self.forced,
     { unimplemented!() }
     #[verifier::external_body]
     pub fn additional_backtrack(&mut self, n: usize)
@@ -68,6 +85,7 @@ pub struct TokenParser {
     pub llm_bytes: Vec<u8>,
     pub grm_prefix: Vec<u8>,
     pub eos_without_bytes: Vec<usize>,
+    pub forced_by_id: Vec<usize>,
     pub had_backtrack: bool,
     pub stop_reason: StopReason,
     pub ghost cleared: nat,
@@ -83,6 +101,8 @@ pub fn usize_to_isize(x: usize) -> (r: isize) requires x <= isize::MAX, ensures 
 pub fn isize_to_usize(x: isize) -> (r: usize) requires x >= 0, ensures r == x, { x as usize }
 /// R19
 pub fn min_usize(a: usize, b: usize) -> (r: usize) ensures r == (if a <= b { a } else { b }), { if a <= b { a } else { b } }
+/// R26: `s.first() == Some(&c)` / `s.first() != Some(&c)` on a byte slice
+pub fn first_is(s: &[u8], c: u8) -> (r: bool) ensures r == (s@.len() > 0 && s@[0] == c), { s.len() > 0 && s[0] == c }
 /// R24: `v.retain(|&idx| idx < n)` on the index list of zero-byte EOS tokens
 #[verifier::external_body]
 pub fn retain_below(v: &mut Vec<usize>, n: usize)
@@ -123,19 +143,19 @@ impl TokenParser {
     pub fn clear_caches(&mut self)
         ensures final(self).cleared == old(self).cleared + 1, final(self).llm_tokens == old(self).llm_tokens, final(self).llm_bytes == old(self).llm_bytes,
             final(self).grm_prefix == old(self).grm_prefix, final(self).eos_without_bytes == old(self).eos_without_bytes, final(self).token_env == old(self).token_env,
-            final(self).parser == old(self).parser, final(self).inference_caps == old(self).inference_caps,
+            final(self).parser == old(self).parser, final(self).inference_caps == old(self).inference_caps, final(self).forced_by_id == old(self).forced_by_id,
     { unimplemented!() }
     #[verifier::external_body]
     pub fn stop(&mut self, warn: &str, reason: StopReason) -> (e: VErr)
         ensures final(self).stop_reason == reason, final(self).llm_tokens == old(self).llm_tokens, final(self).llm_bytes == old(self).llm_bytes,
             final(self).cleared == old(self).cleared, final(self).parser == old(self).parser, final(self).token_env == old(self).token_env,
-            final(self).eos_without_bytes == old(self).eos_without_bytes,
+            final(self).eos_without_bytes == old(self).eos_without_bytes, final(self).forced_by_id == old(self).forced_by_id,
     { unimplemented!() }
     #[verifier::external_body]
     pub fn stop_for_parser_error(&mut self, pref: &str, err: ParserError) -> (e: VErr)
         ensures final(self).llm_tokens == old(self).llm_tokens, final(self).llm_bytes == old(self).llm_bytes,
             final(self).cleared == old(self).cleared, final(self).parser == old(self).parser, final(self).token_env == old(self).token_env,
-            final(self).eos_without_bytes == old(self).eos_without_bytes,
+            final(self).eos_without_bytes == old(self).eos_without_bytes, final(self).forced_by_id == old(self).forced_by_id,
     { unimplemented!() }
 
 //@@ fn parser/src/tokenparser.rs TokenParser::apply_token
@@ -145,13 +165,30 @@ impl TokenParser {
 //@ rewrite R18 :: backtrack_bytes0.try_into().unwrap() ==> usize_to_isize(backtrack_bytes0)
 //@ rewrite R18 :: (-backtrack_bytes).try_into().unwrap() ==> isize_to_usize(-backtrack_bytes)
 //@ rewrite R24 :: self.eos_without_bytes.retain(|&idx| idx < token_ptr); ==> retain_below(&mut self.eos_without_bytes, token_ptr);
+//@ rewrite R24 :: self.forced_by_id.retain(|&idx| idx < token_ptr); ==> retain_below(&mut self.forced_by_id, token_ptr);
+//@ rewrite R26 :: tok_bytes.first() != Some(&toktrie::TokTrie::SPECIAL_TOKEN_MARKER) ==> !first_is(tok_bytes, 0xff)
+//@ rewrite R26 :: self.parser.currently_forced_bytes().first() == Some(&toktrie::TokTrie::SPECIAL_TOKEN_MARKER) ==> first_is(self.parser.currently_forced_bytes(), 0xff)
 //@ spec
     requires
         old(self).tinv(), old(self).pinv(),
         forall|i: usize| old(self).eos_without_bytes@.contains(i) ==> i < old(self).llm_tokens@.len(),
         old(self).llm_tokens@.len() < 0x7fff_ffff, old(self).llm_bytes@.len() < 0x7fff_0000_0000,
+        // histories that already contain a token matched by id against forced bytes are outside this contract (pinv does not hold for them)
+        old(self).forced_by_id@.len() == 0,
     ensures
         final(self).cleared == old(self).cleared + 1,
+        // a token is recorded in forced_by_id exactly when the parser matched it by id against forced "\xFF[id]" bytes, and then it
+        // occupies that spelling in the parser (this is what TokenParser::rollback later asks the parser to drop: unit tprollback_v)
+        (res is Ok && final(self).forced_by_id@.len() > 0) ==>
+            final(self).forced_by_id@ == seq![old(self).llm_tokens@.len() as usize]
+            && final(self).llm_tokens@ == old(self).llm_tokens@.push(tok_id)
+            && final(self).parser.len == old(self).parser.len + special_len(tok_id)
+            && old(self).parser.forced.len() > 0 && old(self).parser.forced[0] == 0xff,
+        // ... and in every other successful commit without backtracking the parser received exactly the bytes llm_bytes received
+        (res is Ok && final(self).forced_by_id@.len() == 0 && final(self).llm_tokens@.len() == old(self).llm_tokens@.len() + 1) ==>
+            final(self).parser.len - old(self).parser.len <= final(self).llm_bytes@.len() - old(self).llm_bytes@.len()
+            && (old(self).grm_prefix@.len() <= old(self).llm_bytes@.len() ==>
+                final(self).parser.len - old(self).parser.len == final(self).llm_bytes@.len() - old(self).llm_bytes@.len()),
         // an id outside the vocabulary is refused before anything is recorded
         tok_id >= old(self).token_env.trie.vocab ==> res is Err && final(self).llm_tokens == old(self).llm_tokens,
         // success keeps bytes == decode(tokens)
@@ -165,7 +202,7 @@ impl TokenParser {
         // zero-byte EOS records are only ever dropped, and stay inside the history
         res is Ok ==> forall|i: usize| final(self).eos_without_bytes@.contains(i) ==> old(self).eos_without_bytes@.contains(i) && i < final(self).llm_tokens@.len(),
         // the parser never holds bytes the token parser dropped (when backtracking is passed on to it)
-        (res is Ok && (final(self).inference_caps.backtrack || final(self).llm_tokens@.len() == old(self).llm_tokens@.len() + 1)) ==> final(self).pinv(),
+        (res is Ok && final(self).forced_by_id@.len() == 0 && (final(self).inference_caps.backtrack || final(self).llm_tokens@.len() == old(self).llm_tokens@.len() + 1)) ==> final(self).pinv(),
 //@ body_start
     let ghost t0 = self.llm_tokens@;
     let ghost b0 = self.llm_bytes@;
@@ -223,6 +260,10 @@ impl TokenParser {
             assert(tt.subrange(0, tt.len() as int) =~= tt);
         }
     }
+//@ before return Ok(backtrack_tokens);
+    proof {
+        if self.forced_by_id@.len() > 0 { assert(self.forced_by_id@.contains(self.forced_by_id@[0])); }
+    }
 //@ before let byte_ptr
     proof {
         let k = backtrack_tokens as int;
@@ -237,7 +278,7 @@ impl TokenParser {
 // vacuity guards (must FAIL)
 pub fn must_fail_apply_never_backtracks(tp: &mut TokenParser, t: TokenId)
     requires old(tp).tinv(), old(tp).pinv(), old(tp).llm_tokens@.len() < 0x7fff_ffff, old(tp).llm_bytes@.len() < 0x7fff_0000_0000,
-        forall|i: usize| old(tp).eos_without_bytes@.contains(i) ==> i < old(tp).llm_tokens@.len(),
+        forall|i: usize| old(tp).eos_without_bytes@.contains(i) ==> i < old(tp).llm_tokens@.len(), old(tp).forced_by_id@.len() == 0,
 {
     let n = tp.llm_tokens.len();
     let r = tp.apply_token(t);
